@@ -130,6 +130,9 @@ def guard_summary(o, fn=None, pv=None):
         walk(x0, 0)
     if "len" in names or "try_into" in names or (raw and raw <= {"next", "into_iter", "try_as_array", "branch"} and "next" in raw):
         return "@len"       # the arity of the input array, however it is tested (len(), the k-th next(), Vec -> [T; N])
+    if last[0] == "discr" and is_call(last[1]) and last[1][1] in ("core::slice::<impl [T]>::first", "core::slice::<impl [T]>::last",
+                                                                    "alloc::vec::Vec::<T, A>::first", "alloc::vec::Vec::<T, A>::pop"):
+        return "@is_empty"      # `match v.first() { None => .. }` is the emptiness test
     if last[0] == "discr":
         return "@variant"
     return "@" + "+".join(names[:3]) if names else "@cond"
